@@ -19,6 +19,8 @@
                                   MS: N
   * `adpcm_geometry`             what `wav_open` / `w64_open` / `aiff_open` + `*_init` derive for 1–2 channels and ANY sample rate
                                   (incl. the products that wrap a C int) is a legal geometry
+  * `adpcm_refused_seek_clean`   a refused sf_seek on a writing handle changes nothing (`adpcm_refused_seek_old_rule`: the rule
+                                  before the repair of KF-IMA-WAV-SEEK-WRITE), `adpcm_write_seek_results`
   * encoder invariants (for EVERY input): `ima_step_in_range` (code < 16, predictor a short, step index in 0…88),
     `ima_table_indices_safe`, `adpcm_session_state` (every state any session reaches), `ms_predictor_in_range`
     (predictor < 7, initial delta ≥ 16), `ms_step_in_range` (code < 16, reconstruction a short, delta ≥ 16 stays ≥ 16),
@@ -328,18 +330,21 @@ example : framesAtOpen (geoOf .imaAiff 8000 2) (closedBytes (geoOf .imaAiff 8000
   rw [(adpcm_frames_at_reopen _ (adpcm_geometry _ _ _ (by decide)) _ _ (by intro c hc; simp at hc; subst hc; simp [geoOf])).2.2]
   decide +kernel
 
-/-- **the frame count handed to the header writer** (`fact` chunk of WAV / W64, numSampleFrames of AIFF) for a session of N
-    frames closed with B blocks out: MS: N itself; IMA with one channel: the re-open count; IMA with two channels: HALF the
-    re-open count (`samplesperblock * blockcount / channels` — the division is by the channel count although
-    `samplesperblock` already counts frames).  No reader of this library looks at the field for these encodings. -/
+/-- **the frame count handed to the header writer** (`fact` chunk of WAV / W64, numSampleFrames × 64 of AIFF) for a session
+    of N frames closed with B encode calls: MS: N itself when the open left 0 there (WAV), the "stupidly high" length
+    `w64_open` leaves otherwise; IMA with one channel: the re-open count; IMA with two channels: HALF the re-open count
+    (`samplesperblock * blockcount / channels` — the division is by the channel count although `samplesperblock` already
+    counts frames).  No reader of this library looks at the field for these encodings, and no property speaks about it. -/
 theorem adpcm_header_frames (g : Geo) (nblk n : Nat) :
-    (g.kind = .ms → headerFrames g nblk n = n) ∧
-    (g.kind ≠ .ms → g.ch = 1 → headerFrames g nblk n = nblk * g.spb) ∧
-    (g.kind ≠ .ms → g.ch = 2 → headerFrames g nblk n = nblk * g.spb / 2) := by
-  unfold headerFrames
-  refine ⟨fun h => by simp [h], fun h hc => by simp [h, hc, Nat.mul_comm], fun h hc => by simp [h, hc, Nat.mul_comm]⟩
+    (g.kind = .ms → headerFrames g nblk n (openFrames false) = n ∧ (n < 2 ^ 62 → headerFrames g nblk n (openFrames true) = 2 ^ 63 - 10001)) ∧
+    (g.kind ≠ .ms → g.ch = 1 → ∀ o, headerFrames g nblk n o = nblk * g.spb) ∧
+    (g.kind ≠ .ms → g.ch = 2 → ∀ o, headerFrames g nblk n o = nblk * g.spb / 2) := by
+  unfold headerFrames openFrames
+  refine ⟨fun h => ⟨by simp [h], fun hn => by simp only [h, if_true]; omega⟩,
+    fun h hc o => by simp [h, hc, Nat.mul_comm], fun h hc o => by simp [h, hc, Nat.mul_comm]⟩
 
-example : headerFrames (geoOf .imaWav 8000 2) 3 600 = 757 ∧ framesAtOpen (geoOf .imaWav 8000 2) (3 * 512) = 1515 := by decide
+example : headerFrames (geoOf .imaWav 8000 2) 3 600 0 = 757 ∧ framesAtOpen (geoOf .imaWav 8000 2) (3 * 512) = 1515 ∧
+    headerField (geoOf .imaAiff 8000 2) (headerFrames (geoOf .imaAiff 8000 2) 39 2463 0) = 19 := by decide
 
 /-! ## encoder invariants: every index, every stored value in range, for EVERY input -/
 
@@ -392,5 +397,39 @@ theorem ms_table_indices_safe (channels : Nat) (data : List Int) (chan : Nat) (b
 
 example : msChoose 1 [0, 100, 200, 300, 400] 0 = (1, 16) ∧ msChoose 2 [5, 9, 5, 9, 5, 9, 5, 9, 5, 9] 1 = (0, 16) ∧
     msChoose 1 [0, 30000, -30000, 30000, -30000] 0 = (2, 7500) := by decide
+
+/-! ## sf_seek on the writing handle -/
+
+/-- **a refused seek leaves no trace** (current rule, after the repair of KF-IMA-WAV-SEEK-WRITE): whenever `sf_seek` on a
+    handle opened for writing is refused, the file position, the block counter and the pending frames are untouched — every
+    layout, every geometry, every target -/
+theorem adpcm_refused_seek_clean (g : Geo) (off : Nat) (h : (seekWrite g off).ret = none) :
+    (seekWrite g off).restart = false ∧ (seekWrite g off).dropped = false := by
+  unfold seekWrite at h ⊢
+  cases hk : g.kind <;> simp only [hk] at h ⊢
+  · exact ⟨trivial, trivial⟩
+  · exact ⟨trivial, trivial⟩
+  · by_cases h0 : off = 0
+    · simp [h0] at h
+    · simp [h0]
+
+/-- the rule before the repair: the statement above fails — the refused seek to frame 0 of an IMA WAV writer rewinds the file -/
+theorem adpcm_refused_seek_old_rule :
+    ¬ (∀ (g : Geo) (off : Nat), (seekWriteOld g off).ret = none → (seekWriteOld g off).restart = false) := by
+  intro h
+  have := h (geoOf .imaWav 8000 1) 0 (by decide)
+  revert this
+  decide
+
+/-- IMA writers refuse every target; an MS writer accepts exactly frame 0 (and starts over) -/
+theorem adpcm_write_seek_results (g : Geo) (off : Nat) :
+    (g.kind ≠ .ms → (seekWrite g off).ret = none) ∧
+    (g.kind = .ms → ((seekWrite g off).ret = some 0 ↔ off = 0) ∧ (off ≠ 0 → (seekWrite g off).ret = none)) := by
+  unfold seekWrite
+  cases hk : g.kind <;> simp
+  by_cases h0 : off = 0 <;> simp [h0]
+
+example : seekWrite (geoOf .imaWav 44100 2) 0 = ⟨none, false, false⟩ ∧ seekWriteOld (geoOf .imaWav 44100 2) 0 = ⟨none, true, false⟩ ∧
+    seekWrite (geoOf .ms 44100 2) 0 = ⟨some 0, true, true⟩ ∧ seekWrite (geoOf .ms 44100 2) 7 = ⟨none, false, false⟩ := by decide
 
 end Sf.C07Adpcm
